@@ -48,6 +48,13 @@ fn wrappers() -> Vec<Wrapper> {
         w("pi", "( @ : int ) ->", "", 0, 1),
         w("arrow-right", "x ->", "", 0, 1),
         w("arrow-left", "", "-> x", 6, 1),
+        // chains ending in two parenthesised operands, nested through the first / the second of them
+        w("application-grouped-then-grouped", "f (", ") ( x )", 0, 6),
+        w("application-grouped-grouped-last", "f ( x ) (", ")", 0, 6),
+        w("sum-grouped-then-grouped", "x + (", ") + ( x )", 0, 3),
+        w("sum-grouped-grouped-last", "x + ( x ) + (", ")", 0, 3),
+        w("product-grouped-then-grouped", "x * (", ") * ( x )", 0, 5),
+        w("product-grouped-grouped-last", "x * ( x ) * (", ")", 0, 5),
     ]
 }
 
@@ -138,7 +145,7 @@ fn ladder_sweep(tier: Tier) -> Sweep {
             }
         }
     }
-    let max_n = tier.pick(1024, 8192);
+    let max_n = tier.pick(512, 8192);
     let cap_s = tier.pick(8.0, 40.0);
     let fams2 = fams.clone();
     Sweep::new(
@@ -238,7 +245,7 @@ fn ladder_sweep(tier: Tier) -> Sweep {
             format!("family {}/{} variant {} e.g. n=3: {}", ws[a].name, ws[b].name, VARIANT_NAMES[idx as usize % VARIANTS], family(&ws, a, b, 3).join(" "))
         },
     )
-    .with_timeout(tier.pick(40, 200))
+    .with_timeout(tier.pick(20, 200))
     .with_post_abort(|_idx, kind| AbortVerdict::Violation {
         sub: "no-termination-within-cap".to_owned(),
         input: String::new(),
@@ -260,7 +267,7 @@ impl Prop for C17 {
     fn evidence(&self, tier: Tier) -> EvidenceSpec {
         EvidenceSpec {
             level: "exploration",
-            rule: "all input families of period 1 and 2 over 22 syntactic wrappers (parentheses, sums left/right, differences, negation, products, application left/right, comparison, let / annotated let / let nested in a definition, if nested in the else / then / condition position, the four lambda forms and the annotation position, pi, arrows left/right), i.e. 22 + 462 families, each in 8 variants (well formed; suffix dropped; last 1, 2, 3 tokens dropped; a wrong token planted at 1/4, 1/2, 3/4), on the ladder n = 1, 2, 4, ..; the real tokenize+parse is run on a 2 GiB stack and its heap allocations counted; every rung must finish within the cap, every rung must satisfy allocations <= 40 tokens^2 + 200000 (measured on the unchanged tree: <= 2 tokens^2), and well-formed variants must satisfy work(2n) <= 6 work(n) from n >= 64 (measured: 2.00). evaluations = families x variants; non-trivial = those whose whole ladder was measured".to_owned(),
+            rule: "all input families of period 1 and 2 over 28 syntactic wrappers (parentheses, sums left/right, differences, negation, products, application left/right, comparison, let / annotated let / let nested in a definition, if nested in the else / then / condition position, the four lambda forms and the annotation position, pi, arrows left/right, and application / sum / product chains ending in two parenthesised operands nested through either of them), i.e. 28 + 756 families, each in 8 variants (well formed; suffix dropped; last 1, 2, 3 tokens dropped; a wrong token planted at 1/4, 1/2, 3/4), on the ladder n = 1, 2, 4, .., 512 (quick) / 8192 (thorough); the real tokenize+parse is run on a 2 GiB stack and its heap allocations counted; every rung must finish within the cap, every rung must satisfy allocations <= 40 tokens^2 + 200000 (measured on the unchanged tree: <= 2 tokens^2), and well-formed variants must satisfy work(2n) <= 6 work(n) from n >= 64 (measured: 2.00). evaluations = families x variants; non-trivial = those whose whole ladder was measured".to_owned(),
             assumptions: vec![
                 "a growth law on a finite ladder is evidence of the law, not a proof for all n".to_owned(),
                 "heap allocations are proportional to parse-function executions (every constructed term, cache insert and error closure allocates)".to_owned(),
@@ -271,8 +278,8 @@ impl Prop for C17 {
             transitions: None,
             traces: None,
             exhaustive: true,
-            bounds: json!({"max_n": tier.pick(1024, 8192), "time_cap_s": tier.pick(8.0, 40.0), "wellformed_growth_factor": 6, "envelope": "40*T^2+200000"}),
-            minimums: vec![("wellformed_accepted", 3000), ("malformed_rejected", 10_000), ("rungs", 30_000)],
+            bounds: json!({"max_n": tier.pick(512, 8192), "time_cap_s": tier.pick(8.0, 40.0), "wellformed_growth_factor": 6, "envelope": "40*T^2+200000"}),
+            minimums: vec![("wellformed_accepted", 5000), ("malformed_rejected", 10_000), ("rungs", 40_000)],
         }
     }
 }
